@@ -16,12 +16,12 @@ for c in man["checks"]:
     for attr in ("MODULES",):
         if hasattr(m, attr):
             mods.update(getattr(m, attr))
-    if hasattr(m, "CFG") and pid in getattr(m, "CFG"):
+    if hasattr(m, "CFG") and pid in getattr(m, "CFG") and isinstance(m.CFG[pid], dict) and "modules" in m.CFG[pid]:
         mods.update(m.CFG[pid]["modules"])
 try:
     import c01, memcheck
-    for k, v in c01.CFG.items(): mods.update(v["modules"])
-    for k, v in memcheck.CFG.items(): mods.update(v["modules"])
+    for k, v in c01.CFG.items(): mods.update(v.get("modules", []))
+    for k, v in memcheck.CFG.items(): mods.update(v.get("modules", []))
 except Exception as e:
     print("note:", e)
 targets = ["driver"] + sorted(mods)
